@@ -247,9 +247,12 @@ def step (line : String) : String :=
       let ok := match py with
         | some o => Spec.accepts os o
         | none => false
-      let nerr := (impl.filter isErr).length
+      -- branch: were there refused sets, and how many versions did the longest key reach
+      let setOuts := (os.zip impl).filter fun (o, _) => match o with | .set .. => true | _ => false
+      let refused := setOuts.any fun (_, r) => isErr r
+      let deepest := ((Impl.run os).map fun e => e.2.length).foldl max 0
       driverResult (.list (impl.map outToSexp)) ok (Spec.accepts os impl) true
-        (if nerr == 0 then "no-error" else if (Impl.run os).length ≥ 2 then "errors-multi-key" else "errors")
+        (s!"{if setOuts.isEmpty then "no-set" else if refused then "some-set-refused" else "all-sets-ok"}-depth{min deepest 4}")
     | none => bad "vdict-ops"
   | some (.list [.atom "tables", _, pyout]) =>
     match pyout with
@@ -322,6 +325,12 @@ def step (line : String) : String :=
       driverResult (.list [.atom rs, .atom status]) (specOn pyName pyStatus)
         (specOn (some rs) (some status)) (!captured) br
   | some (.list [.atom "rt", case, pyout]) => rtStep case pyout
+  | some (.list [.atom "rt1", .list [.atom kind, _], pyout]) =>
+    -- python sends (canonical form before, canonical form after); Spec: they are equal
+    match pyout with
+    | .list [b, a] => driverResult (.list [b, b]) (b == a) true true kind
+    | .atom "save-error" => driverResult (.atom "save-error") true true true (kind ++ "-save-error")
+    | _ => driverResult (.atom "two-canonical-forms") false true true kind
   | _ => bad "unknown-family"
 
 def main : IO Unit := driverLoop step
